@@ -115,8 +115,27 @@ def cases(draw, pairs=False):
 @st.composite
 def larger_cases(draw):
     """dense 3-4 annotator continua up to 3x14 / 4x7: the LP relaxation is fractional there and the solver has to branch"""
-    cs = draw(gen.continuum_and_spec(kinds=("combined", "combined", "pos", "precomputed", "ordinal"), min_ann=3, max_ann=4, budget=3500, max_per=14,
-                                     shapes=["random", "random", "clusters", "coincide"], span=30, equal_delta_only=True))
+    if draw(st.booleans()):
+        # 3 annotators x 10-14 units each, densely overlapping, 3 categories (the regime in which a MIP solver really branches)
+        spec = draw(st.sampled_from([
+            {"kind": "combined", "alpha": 1.0, "beta": 1.0, "delta": 1.0, "pos": None, "cat": None},
+            {"kind": "combined", "alpha": 1.0, "beta": 1.0, "delta": 2.5, "pos": None, "cat": None},
+            {"kind": "combined", "alpha": 2.0, "beta": 1.0, "delta": 1.0, "pos": None, "cat": None},
+            {"kind": "pos", "delta": 1.0}]))
+        units = []
+        for a in ("a", "b", "c"):
+            for _ in range(draw(st.integers(10, 14))):
+                s0 = draw(gen.dyadic(0, 40))
+                units.append([a, s0, s0 + draw(gen.dyadic(1, 8)), draw(st.sampled_from(["A", "B", "C"]))])
+        seen, out = set(), []
+        for u in units:
+            if tuple(u) not in seen:
+                seen.add(tuple(u))
+                out.append(u)
+        cs = {"continuum": {"annotators": ["a", "b", "c"], "units": out, "shape": "dense-3x12"}, "dissim": spec}
+    else:
+        cs = draw(gen.continuum_and_spec(kinds=("combined", "combined", "pos", "precomputed", "ordinal"), min_ann=3, max_ann=4, budget=3500, max_per=14,
+                                         shapes=["random", "random", "clusters", "coincide"], span=30, equal_delta_only=True))
     cs["backend"] = draw(st.sampled_from(["cbc", "cbc", "cbc", "glpk"]))
     cs["xcheck"] = 0
     return cs
@@ -135,7 +154,7 @@ def subchecks(tier):
         Sub(name="history", check=check, strategy=history_cases(),
             examples={"quick": 60, "thorough": 800}, shards={"quick": 8, "thorough": 16}),
         Sub(name="larger", check=check, strategy=larger_cases(),
-            examples={"quick": 40, "thorough": 600}, shards={"quick": 8, "thorough": 16}),
+            examples={"quick": 60, "thorough": 800}, shards={"quick": 8, "thorough": 16}),
         Sub(name="random", check=check, strategy=cases(),
             examples={"quick": 300, "thorough": 2500}, shards={"quick": 8, "thorough": 16}),
         Sub(name="pairs", check=check, strategy=cases(pairs=True),
